@@ -238,6 +238,12 @@ func checkBounds(c *Ctx, rule string, keep func(s bceSite) bool, contained func(
 			continue
 		}
 		ok, how := autoDischarge(w, s)
+		if !ok {
+			// the index is the result of a search over the very slice that is indexed, entailed not to be "not found"
+			if ok2, _ := checkRequirement(c, w, s, "index-not-minus-one"); ok2 {
+				ok, how = true, "the index is the result of slices.IndexFunc/Index (or a range key) over the indexed slice and is entailed to be a found position"
+			}
+		}
 		if ok {
 			c.ob(rule, key, pos, true, how)
 			continue
@@ -650,10 +656,21 @@ func checkRequirement(c *Ctx, w *World, s bceSite, req string) (bool, string) {
 			}
 			return true
 		})
-		if cmp == nil {
-			return false, "no comparison of the index with -1"
+		proved := false
+		why := "no comparison of the index with -1"
+		if cmp != nil {
+			proved, why = e.Prove(ix, Not{e.cond(kc, cmp, 0)})
 		}
-		if ok, why := e.Prove(ix, Not{e.cond(kc, cmp, 0)}); !ok {
+		if !proved {
+			// or: index >= 0
+			var objs []types.Object
+			kc2 := kc
+			kc2.objs = &objs
+			if ok, _ := e.Prove(ix, e.cmpForms(kc2.norm(ix.Index), linForm{terms: map[string]int64{}}, token.GEQ, objs)); ok {
+				proved = true
+			}
+		}
+		if !proved {
 			return false, "index != -1 is not entailed: " + why
 		}
 		obj := info.Uses[id]
